@@ -72,7 +72,7 @@ impl<'n> TryFromNode<'n> for Field {
             let (xml_name, namespace_ref) = split_type(ref_name);
             let rust_name = rename_keywords(&to_snake_case(xml_name)).to_string();
 
-            if ref_name.starts_with("xml") {
+            if ref_name.starts_with("xml:") {
                 /* This is a reference to an XML type */
                 return Ok(Field {
                     xml_name: xml_name.to_string(),
